@@ -19,9 +19,9 @@ from mc import core, fordrun
 from mc.core import Stats
 
 PROP = "C06"
-KINDS = ["type", "subroutine", "function", "generic", "absint", "variable", "ctor", "operator"]
-TABLE = {"type": "types", "subroutine": "procs", "function": "procs", "generic": "procs", "absint": "absinterfaces", "variable": "vars", "operator": "procs"}
-PREFIX = {"type": "t", "subroutine": "s", "function": "f", "generic": "g", "absint": "a", "variable": "v", "ctor": "k", "operator": "o"}
+KINDS = ["type", "subroutine", "function", "generic", "absint", "variable", "ctor", "operator", "enumerator"]
+TABLE = {"type": "types", "subroutine": "procs", "function": "procs", "generic": "procs", "absint": "absinterfaces", "variable": "vars", "operator": "procs", "enumerator": "vars"}
+PREFIX = {"type": "t", "subroutine": "s", "function": "f", "generic": "g", "absint": "a", "variable": "v", "ctor": "k", "operator": "o", "enumerator": "e"}
 
 
 def ename(k, pq, tag):
@@ -115,6 +115,8 @@ class Mod:
                 L += [f"  type {n}", "    integer :: c", f"  end type {n}"]
             elif k == "variable":
                 L.append(f"  integer :: {n}")
+            elif k == "enumerator":
+                L += ["  enum, bind(c)", f"    enumerator :: {n} = 1", "  end enum"]
             elif k == "absint":
                 L += ["  abstract interface", f"    subroutine {n}()", f"    end subroutine {n}", "  end interface"]
             elif k == "ctor":
